@@ -151,6 +151,9 @@ def unit_calls(S):
             rec = []
 
             def fake_serialise(p, tree, *a, **k):
+                if not isinstance(p, (str, os.PathLike)):   # e.g. an open file object: equinox's suffix rule does not apply to it - outside the path contract, decided natively below
+                    custom_ser.append(dict(path=path, extra=f"serialize hands equinox a {type(p).__name__} (name={getattr(p, 'name', None)}) instead of the path"))
+                    p = getattr(p, "name", full)
                 p = Path(p)
                 rec.append(dict(path=p, parent_exists=p.parent.exists(), whole=tree))
                 if not _default_leaf_handling((a, dict(k)), eqx.default_serialise_filter_spec):
@@ -167,7 +170,7 @@ def unit_calls(S):
             if len(rec) != 1 or rec[0]["whole"] is not obj or not rec[0]["parent_exists"]:
                 bad_ser.append(dict(path=path, no_suffix=no_suffix, calls=len(rec), whole=(rec[0]["whole"] is obj) if rec else None, parent_exists=rec[0]["parent_exists"] if rec else None))
                 continue
-            written = eqx_with_suffix(rec[0]["path"])
+            written = eqx_with_suffix(rec[0]["path"]) if not (custom_ser and custom_ser[-1]["path"] == path) else rec[0]["path"]
             # deserialize: which file is read, into which skeleton
             rec2 = []
 
